@@ -4,7 +4,7 @@ import TacklerModel.Model.Config
 
 All statements are about `Config.effective env file cli`, the transliteration of the configuration
 path of the `tackler` binary (see the table in `Model/Config.lean`), for **all** file values, option
-sets and environments.  The model is the tree with the fixes F15, F191, F192, F193 applied; the behaviour of
+sets and environments.  The model is the tree with the fixes F15, F23, F24, F25 applied; the behaviour of
 the pinned tree at those points is kept below as `*_pinned` definitions with witnesses.
 
 `namesSimple file cli` is the domain in which identifier validity (library code) is known; outside it
@@ -1482,7 +1482,7 @@ def accountOverlapOf_pinned (a : Option (List String)) : Option (List String) :=
 theorem F15_witness_pinned : selectsAll ((accountOverlapOf_pinned (some [""])).getD []) = false := by decide
 theorem F15_fixed : selectsAll ((accountOverlapOf (some [""])).getD []) = true := by decide
 
-/-- F191, pinned `try_from`: `cfg_rpt_commodity` is computed (and `?`-propagated) before the overlap is looked at -/
+/-- F23, pinned `try_from`: `cfg_rpt_commodity` is computed (and `?`-propagated) before the overlap is looked at -/
 def reportCommodityOf_pinned (cfg : Cfg) (strict : Bool) (ov : Option String) : Outcome (Option String) :=
   match (match cfg.commodity with
          | none => Outcome.ok none
@@ -1500,25 +1500,25 @@ def cfgSEK : Cfg :=
     selBalance := [], selBalGrp := [], selRegister := [], groupBy := .month, exportTargets := [],
     equityAccount := "Equity", selEquity := [] }
 
-/-- F191 witness: file `commodity = "SEK"` (undeclared), options `--strict.mode true --report.commodity EUR`:
+/-- F23 witness: file `commodity = "SEK"` (undeclared), options `--strict.mode true --report.commodity EUR`:
     the pinned tree fails on the shadowed file value; with the value written into the file it succeeds -/
-theorem F191_witness_pinned :
+theorem F23_witness_pinned :
     reportCommodityOf_pinned cfgSEK true (some "EUR") = .err ∧
     reportCommodityOf_pinned { cfgSEK with commodity := some "EUR" } true none = .ok (some "EUR") := by decide
-theorem F191_fixed : reportCommodityOf cfgSEK true (some "EUR") = .ok (some "EUR") := by decide
+theorem F23_fixed : reportCommodityOf cfgSEK true (some "EUR") = .ok (some "EUR") := by decide
 
-/-- F192, pinned `get_input_type`: `suffix: self.input_fs_ext.clone()` as given -/
+/-- F24, pinned `get_input_type`: `suffix: self.input_fs_ext.clone()` as given -/
 def fsInput_pinned (env : Env) (dir ext : String) : Input := .fs (atCwd env dir) ext
 
-/-- F192 witness: `--input.fs.ext .txn` keeps the dot (and then matches no file: `Path::extension` never has
+/-- F24 witness: `--input.fs.ext .txn` keeps the dot (and then matches no file: `Path::extension` never has
     one), while `suffix = ".txn"` in the file means `txn` -/
-theorem F192_witness_pinned :
+theorem F24_witness_pinned :
     fsInput_pinned envX "/d" ".txn" = .fs "/d" ".txn" ∧
     inputOfStorage envX { cfgSEK with fs := some ("/d", ".txn") } .fs = .ok (.fs "/d" "txn") := by decide
-theorem F192_fixed :
+theorem F24_fixed :
     getInputType envX cfgSEK { inputFsDir := some "/d", inputFsExt := some ".txn" } = .ok (.fs "/d" "txn") := by decide
 
-/-- F193, pinned clap attributes: `--input.fs.ext` has no conflicts of its own, and "`ext` requires `dir`" is
+/-- F25, pinned clap attributes: `--input.fs.ext` has no conflicts of its own, and "`ext` requires `dir`" is
     waived when the missing `dir` conflicts with a present option (`Validator::is_missing_required_ok`) -/
 def clapAccepts_pinned (c : CliOpts) : Bool :=
   clapValues c &&
@@ -1531,9 +1531,9 @@ def clapAccepts_pinned (c : CliOpts) : Bool :=
    (!c.inputGitRepo.isSome || (c.inputGitDir.isSome && (c.inputGitRef.isSome || c.inputGitCommit.isSome))) &&
    (!c.inputGitDir.isSome || c.inputGitRepo.isSome))
 
-/-- F193 witness: the pinned tree accepts `--input.fs.ext jrnl --input.git.ref side` and then ignores the
+/-- F25 witness: the pinned tree accepts `--input.fs.ext jrnl --input.git.ref side` and then ignores the
     extension (the input is the file's git storage with its own suffix); the repaired attributes reject it -/
-theorem F193_witness_pinned :
+theorem F25_witness_pinned :
     clapAccepts_pinned { inputFsExt := some "jrnl", inputGitRef := some "side" } = true ∧
     (configFrom envX fileX).bind (fun cfg => getInputType envX cfg { inputFsExt := some "jrnl", inputGitRef := some "side" }) =
       .ok (.git "/w/conf/repo.git" "txns" (.reference "side") "txn") ∧
